@@ -51,6 +51,7 @@ func c06SpawnChild(w *lfWorld, parent *PID, name string, opts ...SpawnOption) *P
 		panic(fmt.Sprintf("c06SpawnChild %s: %v", name, err))
 	}
 	w.setTrack(name, pid)
+	w.addChild(parent.Name(), name)
 	return pid
 }
 
@@ -58,16 +59,6 @@ func (w *lfWorld) addOp(op *lfOp) *lfOp {
 	op.idx = len(w.ops)
 	w.ops = append(w.ops, op)
 	return op
-}
-
-func lfTouch(names ...string) func(w *lfWorld) []*PID {
-	return func(w *lfWorld) []*PID {
-		var out []*PID
-		for _, n := range names {
-			out = append(out, w.pid(n))
-		}
-		return out
-	}
 }
 
 // opTell: Tell(target, user message) from a client goroutine.
@@ -84,33 +75,37 @@ func lfOpTell(target, label string, act func(a *lfActor, ctx *ReceiveContext), t
 		return lfErrClass(err)
 	}
 	if len(touches) > 0 {
-		op.touches = lfTouch(touches...)
+		op.touches = touches
 	}
 	return op
 }
 
 func lfOpPoison(target string) *lfOp {
-	return &lfOp{label: "poisonpill(" + target + ")", kind: "poisonpill", touches: lfTouch(target),
+	return &lfOp{label: "poisonpill(" + target + ")", kind: "poisonpill", touches: []string{"?" + target},
 		run: func(w *lfWorld) string { return lfErrClass(Tell(c06Ctx, w.pid(target), new(PoisonPill))) }}
 }
 
 func lfOpKill(target string) *lfOp {
-	return &lfOp{label: "kill(" + target + ")", kind: "kill", touches: lfTouch(target),
+	return &lfOp{label: "kill(" + target + ")", kind: "kill", touches: []string{target},
 		run: func(w *lfWorld) string { return lfErrClass(w.sys.Kill(c06Ctx, target)) }}
 }
 
 func lfOpStopChild(parent, child string) *lfOp {
-	return &lfOp{label: parent + ".stop(" + child + ")", kind: "stop-child", touches: lfTouch(child),
+	return &lfOp{label: parent + ".stop(" + child + ")", kind: "stop-child", touches: []string{"?" + child},
 		run: func(w *lfWorld) string { return lfErrClass(w.pid(parent).Stop(c06Ctx, w.pid(child))) }}
 }
 
 func lfOpRestart(target string) *lfOp {
-	return &lfOp{label: "restart(" + target + ")", kind: "restart", touches: lfTouch(target),
+	return &lfOp{label: "restart(" + target + ")", kind: "restart", touches: []string{"?" + target},
 		run: func(w *lfWorld) string { return lfErrClass(w.pid(target).Restart(c06Ctx)) }}
 }
 
 func lfOpSystemStop(all ...string) *lfOp {
-	return &lfOp{label: "system.stop", kind: "system-stop", touches: lfTouch(all...),
+	t := make([]string, len(all))
+	for i := range all {
+		t[i] = "?" + all[i]
+	}
+	return &lfOp{label: "system.stop", kind: "system-stop", touches: t,
 		run: func(w *lfWorld) string { return lfErrClass(w.sys.Stop(c06Ctx)) }}
 }
 
@@ -178,15 +173,15 @@ func c06Build(name string, paths []string, tells int, forceParent bool) c06Scn {
 				op = lfOpStopChild("p", "a")
 			case "stop-child-inturn":
 				// the parent's handler stops the child from its own turn (p's Receive is not gated)
-				op = lfOpTell("p", "stopchild", func(a *lfActor, ctx *ReceiveContext) { ctx.Stop(a.w.pid("a")) }, "a")
+				op = lfOpTell("p", "stopchild", func(a *lfActor, ctx *ReceiveContext) { ctx.Stop(a.w.pid("a")) }, "?a")
 			case "parent-stop":
 				op = lfOpKill("p")
 			case "system-stop":
 				op = lfOpSystemStop(all...)
 			case "supervisor-stop":
-				op = lfOpTell("a", "fail", func(a *lfActor, ctx *ReceiveContext) { ctx.Err(errors.New("boom")) }, "a")
+				op = lfOpTell("a", "fail", func(a *lfActor, ctx *ReceiveContext) { ctx.Err(errors.New("boom")) }, "?a")
 			case "self-shutdown":
-				op = lfOpTell("a", "selfstop", func(a *lfActor, ctx *ReceiveContext) { ctx.Shutdown() }, "a")
+				op = lfOpTell("a", "selfstop", func(a *lfActor, ctx *ReceiveContext) { ctx.Shutdown() }, "?a")
 			case "restart":
 				op = lfOpRestart("a")
 				rs = append(rs, op)
@@ -299,12 +294,6 @@ func c06Scenarios() []c06Scn {
 		w.addOp(tellByName("m1"))
 		w.addOp(tellByName("m2"))
 		k := lfOpKill("a")
-		k.touches = func(w *lfWorld) []*PID {
-			if n, ok := w.sys.tree().nodeByName("a"); ok {
-				return []*PID{n.value()}
-			}
-			return nil
-		}
 		w.addOp(k)
 		w.gatePolicy = func(a *lfActor, hook, msg string) bool {
 			return hook == "pre" || c06Policy(a, hook, msg)
